@@ -463,7 +463,9 @@ func vRaceStalledDisk(k *vCaller, w vRaceWorkload, dir string) {
 		k.must("Stop", &s, &okay)
 		return
 	}
-	// offered records are counted in the other channel's file: wait for 4000 of them (the queue holds 1000), at most 20 s
+	// offered records are counted in the other channel's file. The queue holds 1000 writes, an LJH2.2 record takes three: 1500
+	// offered records overflow it several times. The data loop itself stops at its next periodic flush (it waits for the stalled
+	// file), which may come after one block or after twenty: wait for 1500 records, or for 500 and no growth for a second; at most 20 s
 	other := strings.Replace(fifo, "_chan1.ljh", "_chan0.ljh", 1)
 	recSize := 16 + 2*nsamp
 	hdr := -1
@@ -482,8 +484,17 @@ func vRaceStalledDisk(k *vCaller, w vRaceWorkload, dir string) {
 		}
 		return (int(fi.Size()) - hdr) / recSize
 	}
-	for i := 0; i < 400 && offered() < 4000; i++ {
+	last, still := 0, 0
+	for i := 0; i < 400 && offered() < 1500; i++ {
 		time.Sleep(50 * time.Millisecond)
+		if n := offered(); n == last {
+			still++
+		} else {
+			last, still = n, 0
+		}
+		if last >= 500 && still >= 20 {
+			break
+		}
 	}
 	nOffered := offered()
 	k.must("SendAllStatus", &s, &okay)
@@ -494,7 +505,7 @@ func vRaceStalledDisk(k *vCaller, w vRaceWorkload, dir string) {
 	<-sk.done
 	k.must("Stop", &s, &okay)
 	got := sk.total()
-	if nOffered >= 4000 {
+	if nOffered >= 500 {
 		k.c.Cov("stalled_file_records_offered", nOffered)
 		h := strings.Index(string(sk.got), "#End of Header\n")
 		if h >= 0 {
